@@ -7,7 +7,7 @@ use crate::erpki::*;
 use crate::erun::*;
 use crate::escen::*;
 
-fn profile() -> HistProfile {
+pub fn profile() -> HistProfile {
     let mut hp = HistProfile::default();
     hp.base.fault_16 = 1;
     hp.base.max_objs = 7;
